@@ -19,6 +19,7 @@ CHECKS = {
     "C06": ("model_checking", "C06.alt/run/flush/nonasync evaluated on the abstract observable state in Sched.tla and on every real trace (contexts spanning yields, nested, with sync re-entry and failures).", "4.3, 6"),
     "C07": ("model_checking", "C07.lifo/read/restore on Sched.tla and on real traces with real AsyncScopedValue/async_override contexts.", "4.3, 6"),
     "C08": ("model_checking", "Sessions (several computations on one scheduler, faults, overflow, nested sync) in Sched.tla and in the real code: C08.active/clean on every trace; C08.fresh = the next computation's trace is a behaviour of the fresh-start specification (TraceSched).", "4.3, 6"),
+    "C12": ("model_checking", "The deduplicate registry is part of Sched.tla (DedupCall, the completion callback, dirty()); the property's own reference registry lives in the monitor (Obs.tla: C12.share/again/sep); TLC explores programs issuing same/different-key calls in the same yield, in later steps while the first is blocked, between flushes, after completion, with dirty() at every position, under all schedules; real traces validated by the monitor.", "6 (C12)"),
 }
 
 checks = []
